@@ -52,10 +52,16 @@ func (r *Entity) EntityType() model.EntityTypeType {
 }
 
 func (r *Entity) Description() *model.DescriptionType {
+	r.muxGenerator.Lock()
+	defer r.muxGenerator.Unlock()
+
 	return r.description
 }
 
 func (r *Entity) SetDescription(d *model.DescriptionType) {
+	r.muxGenerator.Lock()
+	defer r.muxGenerator.Unlock()
+
 	r.description = d
 }
 
